@@ -1080,7 +1080,7 @@ class WorldG : public World
 
     std::uint64_t default_runs(CheckSpec const& spec) const override
     {
-        return spec.tier == "thorough" ? 30000 : 600;
+        return spec.tier == "thorough" ? 120000 : 3000;
     }
 
   private:
